@@ -117,8 +117,6 @@ def run_abort(ctx, driver, sc, model, fault=None, inject=None, policy=None):
     import session_props as SP
     pdesc = policy or {'kind': 'random', 'seed': ctx.rng.randrange(1 << 30)}
     r = session.run_session(sc, SP.make_policy(pdesc), ctx.workdir, faults=fault, inject=inject, max_steps=400000)
-    if r.status == 'WATCHDOG':
-        raise common.Infra(f'scheduler watchdog: a thread blocked outside a yield point ({r.deadlock})')
     ctx.count('_cases')
     ctx.count('_evals', r.steps)
     ctx.count('abort_sessions')
@@ -145,6 +143,9 @@ def run_abort(ctx, driver, sc, model, fault=None, inject=None, policy=None):
     def fail(key, detail, kind='counterexample'):
         fails.append({'key': key, 'kind': kind, 'scenario': sc, 'policy': pdesc, 'schedule': r.schedule,
                       'fault': fault, 'inject': inject, 'diff': detail})
+    if r.status == 'WATCHDOG':
+        fail('completion', {'status': r.status, 'blocked': r.deadlock})
+        return fails
     if 'main' not in r.exceptions:
         # the server did not abandon the session: the fault description does not apply (harness problem, not a violation)
         raise common.Infra(f'expected Server.run to raise for fault={fault} inject={inject}; status={r.status} '
@@ -250,7 +251,7 @@ def extra_checks(ctx):
                 ctx.count('kind_interrupt' if kind == 'int' else 'kind_interrupt_any_step')
                 ctx.distinct.add(hash((json.dumps(sc, sort_keys=True), kind, d['k'])))
                 fails += run_abort(ctx, driver, sc, model, inject=d)
-            if len(fails) > 20:
+            if len(fails) > 6 or any((f.get('diff') or {}).get('status') == 'WATCHDOG' for f in fails if isinstance(f.get('diff'), dict)):
                 return fails
     if ctx.shard == 0:
         # minimised past failures first-class: corpus/C13/*.json (scenario + fault), re-run under their recorded policy
